@@ -1,6 +1,7 @@
 """C02 — time-reversed solver output generates the target (narrow structural claim, DESIGN §5.2)."""
 from __future__ import annotations
 
+from ..core import AnalysisError, call_attr, calls_in, func_params, short
 from ..driver import Knockout, sub_nth, sub_once
 from ..report import Ctx
 from ..rules import mirror, solvers, tables
@@ -39,6 +40,7 @@ def run(ctx: Ctx) -> None:
     repo = ctx.repo
     handled = mirror.rule_mirror(ctx)
     mirror.rule_guarded_first(ctx)
+    rule_target_shared(ctx)
     from ..rules import effects
     effects.rule_consumed_tableau(ctx, [TRS])
     tables.rule_vocab(ctx, "vocab.gates", [(STABF, "inverse_circuit")], "TimeReversedSolver._add_gates_from_str", handled)
@@ -50,7 +52,35 @@ def run(ctx: Ctx) -> None:
     ctx.floor("order.frontinsert", 6)
 
 
+def rule_target_shared(ctx: Ctx) -> None:
+    """target.shared: the solver's target and the metric's target are one QuantumState object created by the caller (Infidelity(target)
+    evaluates only stabilizer / density-matrix targets).  TimeReversedSolver.__init__ therefore converts *that object* to the stabilizer
+    representation; converting a private copy leaves the metric holding a graph-typed target and solve() raises for every target given as
+    a graph."""
+    import ast as _ast
+    repo = ctx.repo
+    m = repo.module(TRS)
+    fn = repo.anchor(TRS, "TimeReversedSolver.__init__")
+    ctx.touch(m, fn)
+    tp = func_params(fn)[1]
+    convs = [c for c in calls_in(fn) if call_attr(c) == "convert_representation"]
+    if not convs:
+        raise AnalysisError("TimeReversedSolver.__init__: the conversion of the target was not found")
+    for c in convs:
+        recv = c.func.value
+        rebinds = [a for a in _ast.walk(fn) if isinstance(a, _ast.Assign) and any(isinstance(t, _ast.Name) and t.id == tp for t in a.targets)
+                   and a.lineno < c.lineno]
+        if isinstance(recv, _ast.Name) and recv.id == tp and not rebinds:
+            ctx.ok("target.shared", m, c, what="the caller's target object is converted in place")
+        else:
+            ctx.fail("target.shared", m, rebinds[0] if rebinds else c,
+                     f"__init__ converts `{short(recv)}`" + (f" after re-binding it (`{short(rebinds[0])}`)" if rebinds else "") +
+                     ", not the QuantumState the caller also handed to the metric: that one keeps its graph representation and Infidelity cannot evaluate it",
+                     func="TimeReversedSolver.__init__", construct="__init__: a copy of the target is converted")
+
+
 KNOCKOUTS = [
+    Knockout("target-converted-on-a-copy", TRS, sub_once("            target.convert_representation(\"s\")\n", "            target = target.copy()\n            target.convert_representation(\"s\")\n            self.target = target\n"), "target.shared", "copy of the target"),
     Knockout("consumed-tableau-no-copy", TRS, sub_once("_, inverse_circuit = sfs.inverse_circuit(stabilizer_tableau.copy())", "_, inverse_circuit = sfs.inverse_circuit(stabilizer_tableau)"),
              "effect.consumed-tableau", "inverse_circuit"),
     Knockout("guarded-first-drop-assert", TRS, sub_once("        assert len(possible_generators) > 0\n", ""), "guarded-first", "possible_generators"),
